@@ -165,6 +165,8 @@ def fmt_root(r):
         return "_%s#%s" % (r[2], r[1])
     if r[0] == "D":
         return "*(%s)" % fmt(r[1])
+    if r[0] == "R":
+        return str(r[1])
     return str(r)
 
 
@@ -313,6 +315,7 @@ class Engine:
             self.summaries.update(summaries)
         self.opaque_pure = set(opaque_pure)
         self.notes = []
+        self.in_discovery = set()
 
     def cfg(self, fid):
         if fid not in self.cfgs:
@@ -505,13 +508,13 @@ class Engine:
                 if key in st.loops:
                     yield st, "backedge", None, (fn["id"], b)
                     return
+                if key not in self.in_discovery:
+                    self.in_discovery.add(key)
+                    try:
+                        self.enter_loop(frame, b, st, depth, loop_heads[b][0])
+                    finally:
+                        self.in_discovery.discard(key)
                 st.loops = st.loops + (key,)
-                self.enter_loop(frame, b, st, depth, loop_heads[b][0])
-            # tracing macro regions are skipped (no tracked effect; checked)
-            reg = cfgmod.tracing_region(cfg, b)
-            if reg is not None and self.region_is_effect_free(frame, reg[0]):
-                b = reg[1]
-                continue
             bl = blocks[b]
             for s in bl["stmts"]:
                 if s["k"] == "assign":
@@ -522,6 +525,12 @@ class Engine:
             t = bl["term"]
             k = t["k"]
             site = (fn["id"], t["span"]["line"])
+            # tracing macro regions are skipped (no tracked effect; checked)
+            if cfgmod.is_tracing_span(t["span"]):
+                reg = cfgmod.tracing_region(cfg, b)
+                if reg is not None and self.region_is_effect_free(frame, reg[0] | {b}):
+                    b = reg[1]
+                    continue
             if k in ("goto", "falseedge", "falseunwind"):
                 b = t["target"]
                 continue
@@ -606,6 +615,11 @@ class Engine:
                     if callee["kind"] == "closure":
                         continue  # tracing's own dispatch closure, defined in the expansion
                     if any(i.startswith("&mut") for i in callee.get("inputs", [])):
+                        ok = False
+                        break
+                elif not (tgt.startswith("tracing::") or "tracing::" in tgt.split(" as ")[-1]
+                          or tgt.startswith("core::fmt") or tgt.startswith("std::fmt")):
+                    if any(a["k"] in ("copy", "move") and a["place"]["ty"].startswith("&mut") for a in t["args"]):
                         ok = False
                         break
             elif t["k"] in ("return", "yield"):
@@ -704,6 +718,7 @@ class Engine:
         for _ in range(6):
             s0 = st.fork()
             s0.events = []
+            s0.loops = tuple(k for k in st.loops if k != (fid, head))
             self.havoc(s0, modset, fid, head)
             found = set()
             exits = self.loop_exit_blocks(frame, body)
@@ -781,7 +796,7 @@ class Engine:
         for i, a in enumerate(args):
             if a[0] == "ptr" and self.arg_is_mut(fj, t, i):
                 cur = self.read_rp(st, a[1], a[2])
-                self.write_rp(st, a[1], a[2], ("call", "havoc:" + target, (cur,), self.next_uniq(st)), site)
+                self.write_rp(st, a[1], a[2], ("call", "havoc:" + target, (cur,), self.next_uniq(st, "havoc:" + target)), site)
         yield st, rv
 
     def arg_is_mut(self, fj, t, i):
@@ -791,12 +806,17 @@ class Engine:
             return a["place"]["ty"].startswith("&mut")
         return False
 
-    def next_uniq(self, st):
-        st.uniq[0] += 1
-        return st.uniq[0]
+    def next_uniq(self, st, target=None):
+        # occurrence index of this callee on the current path: stable across rows and runs
+        n = 0
+        for e in st.events:
+            if e[0] in ("call", "uniq") and e[1] == target:
+                n += 1
+        st.events.append(("uniq", target))
+        return n
 
     def opaque(self, st, target, args, pure=False):
-        return ("call", target, tuple(args), None if pure else self.next_uniq(st))
+        return ("call", target, tuple(args), None if pure else self.next_uniq(st, target))
 
     def may_inline(self, target, depth):
         if depth >= self.max_depth:
